@@ -834,6 +834,14 @@ analyze_function(CallGraphNode cg_node,
       CRAB_VERBOSE_IF(1, get_msg_stream()
                              << "++ Fixpoint reached for recursive function "
                              << cfg.get_func_decl().get_func_name() << "!\n";);
+      if (iteration == 0) {
+        // The fixpoint converged at the very first iteration (the
+        // function never returns under this entry). No outer
+        // iteration will store the invariants so we must do it here:
+        // the blocks of the function are still reachable.
+        ctx.join_invariants_with(cg_node, analyzer->get_pre_invariants(),
+                                 analyzer->get_post_invariants());
+      }
       // Don't check invariants with the last iteration
       return nullptr;
     } else {
